@@ -30,6 +30,7 @@ type camPlan struct {
 	gap      time.Duration
 	endAfter int // during streaming (step 6): act after this many packets
 	renonce  int    // digest only: at this handshake step (3 SETUP video, 4 SETUP audio, 5 PLAY) the nonce has expired: one more 401 with a new nonce
+	askClient bool  // while streaming the camera sends requests of its own (SET_PARAMETER with a body, then OPTIONS) and reads the answers
 	sdp      string // body of the DESCRIBE answer ("" = the clean H.264+AAC description)
 }
 
@@ -53,6 +54,7 @@ type fakeCam struct {
 	sawClose   bool // the server side closed / the connection ended
 	faultFired bool
 	playing    bool
+	garbled    string // the bytes the server sent stopped parsing as RTSP messages (not a plain end of stream)
 	nonce      string // current digest nonce ("" = camNonce)
 	renonced   bool
 	done       chan struct{}
@@ -118,6 +120,9 @@ func (c *fakeCam) serve() {
 		if err != nil {
 			c.mu.Lock()
 			c.sawClose = true
+			if strings.Contains(err.Error(), "malformed") || strings.Contains(err.Error(), "not terminated") {
+				c.garbled = err.Error()
+			}
 			c.mu.Unlock()
 			return
 		}
@@ -243,6 +248,14 @@ func (c *fakeCam) stream() {
 			case "silence":
 				return // stops sending, keeps the connection: the keep-alive / read timeout must notice
 			}
+		}
+		if c.plan.askClient && i == 3 {
+			// the camera asks its client something (legal in RTSP: SET_PARAMETER / OPTIONS from the server side); whatever the
+			// client answers, its byte stream must stay a sequence of RTSP messages
+			c.w.Fault("camera-sends-requests")
+			body := "volume: 11\r\n"
+			c.conn.Write([]byte(fmt.Sprintf("SET_PARAMETER rtsp://cam/x RTSP/1.0\r\nCSeq: 7777\r\nContent-Type: text/parameters\r\nContent-Length: %d\r\n\r\n%s", len(body), body)))
+			c.conn.Write([]byte("OPTIONS rtsp://cam/x RTSP/1.0\r\nCSeq: 7778\r\n\r\n"))
 		}
 		var p *rtp.Packet
 		if i%3 == 2 {
